@@ -49,7 +49,8 @@ struct Options {
   uint64_t maxInstrPath = 200000000ULL;
   uint64_t maxPaths = 2000000;
   double wallCap = 3600;
-  unsigned rlimit = 20000000;   // z3 resource limit per query (deterministic; no timer threads)
+  unsigned rlimit = 4000000;    // z3 resource limit per query (deterministic; no timer threads)
+  unsigned cvc5Ms = 20000;      // time limit of the cvc5 fallback (0 = off)
   unsigned ptrCap = 64;         // feasible values of a symbolic pointer before giving up
   bool checkOverflow = true;
   bool verbose = false;
